@@ -11,6 +11,13 @@ def isOk {ε α : Type} : Except ε α → Bool
 @[simp] theorem isOk_ok {ε α : Type} (a : α) : isOk (.ok a : Except ε α) = true := rfl
 @[simp] theorem isOk_error {ε α : Type} (e : ε) : isOk (.error e : Except ε α) = false := rfl
 
+/-- core has no `DecidableEq (Except ε α)`; needed to `decide` the concrete witnesses -/
+instance instDecidableEqExcept {ε α : Type} [DecidableEq ε] [DecidableEq α] : DecidableEq (Except ε α)
+  | .ok a, .ok b => if h : a = b then isTrue (by rw [h]) else isFalse (by intro h'; cases h'; exact h rfl)
+  | .error a, .error b => if h : a = b then isTrue (by rw [h]) else isFalse (by intro h'; cases h'; exact h rfl)
+  | .ok _, .error _ => isFalse (by intro h; cases h)
+  | .error _, .ok _ => isFalse (by intro h; cases h)
+
 theorem isOk_unit_iff {ε : Type} (r : Except ε Unit) : isOk r = true ↔ r = .ok () := by
   cases r <;> simp [isOk]
 
